@@ -1405,7 +1405,7 @@ func (ms models) of(sc *Scenario) *vlib.Model {
 // blocks for good no longer ends the run (see env.fatal) until maxFatal of them have been abandoned.
 const (
 	kindCap  = 2
-	maxFatal = 12
+	maxFatal = 40
 )
 
 var (
